@@ -108,7 +108,7 @@ def r1_one_pipeline(repo=None):
         r.violation(m.rel, RD + ".get_continuous_blocks", "_combine_blocks(%s, %s)" % (pb, kb), "blocks are merged "
                     "differently for lengths and data", line=cb[0].lineno)
     # inside _read: both branches use the same two bounds and the same key
-    rd = m.fn(TL + "._read")
+    rd = m.flat(TL + "._read").fn()
     ifs = _len_only_if(m, rd)
     if len(ifs) != 1:
         raise AnalysisError("%s._read: `if [not] len_only` not found exactly once" % TL)
@@ -192,47 +192,111 @@ def _vector_roles(m, f):
     return dv, zv
 
 
+def _feasible(g, evalcond, skip=("exc",)):
+    """nodes reachable from the entry when condition nodes whose value evalcond(node) knows (True/False) follow only that edge"""
+    seen = set()
+    work = [g.entry.id]
+    while work:
+        i = work.pop()
+        if i in seen:
+            continue
+        seen.add(i)
+        n = g.nodes[i]
+        v = evalcond(n) if n.kind == "cond" else None
+        for b_, lab in g.succ[i]:
+            if lab in skip:
+                continue
+            if v is True and lab == "F":
+                continue
+            if v is False and lab == "T":
+                continue
+            work.append(b_)
+    return seen
+
+
 def r2_vector_guards(repo=None):
-    r = Rule("C08.R2", "vector reads fail instead of returning partial or shifted data (must-pass)")
+    """Oracle from the property: a vector read returns only if exactly one continuous block covers the range and it holds
+    exactly vector_length samples; otherwise it raises IOError.  Decided by following the CFG of read_vector_raw for each
+    abstract situation (number of blocks 0 / 1 / 2, block length equal / different), whatever shape the tests have."""
+    r = Rule("C08.R2", "vector reads fail instead of returning partial or shifted data (all abstract situations)")
     m = pyfront.mod("digital_rf_hdf5", repo)
     q = RD + ".read_vector_raw"
-    f = m.fn(q)
-    g = m.cfg(q)
+    fv = m.flat(q, keep=("read",))
+    f = fv.fn()
+    g = fv.cfg()
     dv, zv = _vector_roles(m, f)
     if not dv or not zv:
         raise AnalysisError("read_vector_raw: result dictionary of self.read(...) / popitem() not recognised")
-    want = {"gaps": ("len(%s) > 1" % dv,), "nodata": ("len(%s) == 0" % dv, "len(%s) < 1" % dv),
-            "short": ("len(%s) != vector_length" % zv, "vector_length != len(%s)" % zv)}
-    found = {}
-    for n in g.nodes:
-        if n.kind == "cond" and n.ast is not None and not isinstance(n.ast, (ast.For,)):
-            t = pyutil.expand_aliases(f, n.ast)
-            for k, forms in want.items():
-                if t in forms:
-                    found[k] = n
-            if k not in found and isinstance(n.ast, ast.Name) and n.ast.id == dv:
-                pass
+
+    def evaluator(nblocks, same_len):
+        def ev(e):
+            """value of expression e: int / bool / None (unknown)"""
+            if isinstance(e, ast.Constant) and isinstance(e.value, (int, bool)):
+                return e.value
+            if isinstance(e, ast.Call) and pyfront.call_name(e) == "len" and len(e.args) == 1 and isinstance(e.args[0], ast.Name):
+                if e.args[0].id == dv:
+                    return nblocks
+                return None
+            if isinstance(e, ast.Name) and e.id == dv:
+                return nblocks         # truthiness of the dict
+            if isinstance(e, ast.UnaryOp) and isinstance(e.op, ast.Not):
+                v = ev(e.operand)
+                return None if v is None else (not v)
+            if isinstance(e, ast.Compare) and len(e.ops) == 1:
+                l_, r_ = norm(ast.unparse(e.left)), norm(ast.unparse(e.comparators[0]))
+                pair = {l_, r_}
+                if pair == {"len(%s)" % zv, "vector_length"} or pair == {"len(%s)" % zv, "int(vector_length)"}:
+                    if isinstance(e.ops[0], ast.NotEq):
+                        return not same_len
+                    if isinstance(e.ops[0], ast.Eq):
+                        return same_len
+                    return None
+                a, b_ = ev(e.left), ev(e.comparators[0])
+                if isinstance(a, int) and isinstance(b_, int) and not isinstance(a, bool) and not isinstance(b_, bool):
+                    import operator
+                    ops = {ast.Gt: operator.gt, ast.Lt: operator.lt, ast.GtE: operator.ge, ast.LtE: operator.le,
+                           ast.Eq: operator.eq, ast.NotEq: operator.ne}
+                    fnc = ops.get(type(e.ops[0]))
+                    if fnc:
+                        # nblocks == 2 stands for "two or more": comparisons with constants up to 2 are decided
+                        k = b_ if a == nblocks else a
+                        if nblocks == 2 and k > 2:
+                            return None
+                        return fnc(a, b_)
+            return None
+
+        def evalcond(n):
+            if n.ast is None or isinstance(n.ast, (ast.For, ast.While)):
+                return None
+            e = ast.parse(pyutil.expand_aliases(f, n.ast), mode="eval").body
+            v = ev(e)
+            return None if v is None else bool(v)
+        return evalcond
+    situations = [(0, True, "no data in the range"), (2, True, "a gap inside the range"), (1, False, "a block shorter/longer than requested")]
     rets = [n for n in g.nodes if n.kind == "return"]
     if not rets:
         raise AnalysisError("read_vector_raw has no return")
-    msg = {"gaps": "a vector read over a range with gaps", "nodata": "a vector read over a range without data",
-           "short": "a vector read with missing samples at an edge"}
-    for k in want:
-        n = found.get(k)
-        if n is None:
-            r.violation(m.rel, q, "guard `%s` missing" % want[k][0], "%s would return partial or shifted data instead of failing" % msg[k],
-                        line=f.lineno)
-            continue
-        ts = [b for b, l in g.succ[n.id] if l == "T"]
-        treach = g.reach(ts, skip_labels=("exc",))
-        raises = [x for x in g.nodes if x.id in treach and x.kind == "raise"]
-        rerr = raises and all("IOError" in x.label or "OSError" in x.label for x in raises) and not any(x.id in treach for x in rets)
-        dom = all(x.id not in g.reach([g.entry.id], avoid=[n.id], skip_labels=("exc",)) for x in rets)
-        if rerr and dom:
-            r.ok("%s:%s %s `%s`" % (m.rel, n.line, q, n.label), "raises IOError; on every path to the return")
+    for nb, same, what in situations:
+        reach = _feasible(g, evaluator(nb, same))
+        got = [n for n in rets if n.id in reach]
+        raises = [n for n in g.nodes if n.kind == "raise" and n.id in reach and n.line and n.line > 0]
+        if got:
+            r.violation(m.rel, q, "return reachable with %s" % what, "a vector read over %s returns partial or shifted data instead of "
+                        "failing" % what, line=got[0].line)
         else:
-            r.violation(m.rel, q, "guard `%s`" % n.label, "the guard does not raise IOError or can be bypassed on a path to the return",
-                        line=n.line)
+            # the failure must be an IOError (documented) - look at the raises reachable in this situation only
+            late = [x for x in raises if x.id in g.reach([n_.id for n_ in g.nodes if isinstance(n_.ast, ast.Assign) and any(
+                isinstance(t, ast.Name) and t.id == dv for t in n_.ast.targets)], skip_labels=("exc",))]
+            bad = [x for x in late if not ("IOError" in x.label or "OSError" in x.label)]
+            if bad:
+                r.violation(m.rel, q, "%s: `%s`" % (what, bad[0].label[:60]), "the failure is not reported as IOError", line=bad[0].line)
+            else:
+                r.ok("%s:%s %s [%s]" % (m.rel, f.lineno, q, what), "no return is reachable; the read raises IOError")
+    reach = _feasible(g, evaluator(1, True))
+    if not any(n.id in reach for n in rets):
+        r.violation(m.rel, q, "no return reachable for a fully covered range", "a fully covered vector read fails", line=f.lineno)
+    else:
+        r.ok("%s:%s %s [one block of the requested length]" % (m.rel, f.lineno, q), "the data is returned")
     for w, via in (("read_vector", "self.read_vector_raw"), ("read_vector_1d", "self.read_vector"), ("read_vector_c81d", "self.read_vector")):
         fw = m.fn(RD + "." + w)
         direct = _call(fw, "self.read") + _call(fw, "self._read")
@@ -299,7 +363,7 @@ def r3_guard_on_sample_axis(repo=None):
 def r5_subchannel_column(repo=None):
     r = Rule("C08.R5", "selecting a subchannel is taking a column of the same row slice")
     m = pyfront.mod("digital_rf_hdf5", repo)
-    rd = m.fn(TL + "._read")
+    rd = m.flat(TL + "._read").fn()
     subs = [n for n in ast.walk(rd) if isinstance(n, ast.Subscript) and pyfront.dotted(n.value) == "self.rf_data"]
     full = [s_ for s_ in subs if isinstance(s_.slice, ast.Slice)]
     col = [s_ for s_ in subs if isinstance(s_.slice, ast.Tuple) and len(s_.slice.elts) == 2 and isinstance(s_.slice.elts[0], ast.Slice)]
